@@ -30,6 +30,10 @@ CFG_ALLDS = '[snoopy]\nmessage_format = ' + FMT + '|' + ALLDS.replace('|', '') +
 CFG_STDOUT = '[snoopy]\nmessage_format = ' + FMT + '\nfilter_chain = only_uid:0;noop\noutput = stdout\n'
 CFG_SOCKABSENT = '[snoopy]\nmessage_format = ' + FMT + '\nfilter_chain = only_uid:0;noop\noutput = socket:@W@/nosock\n'
 CFG_STDERR = '[snoopy]\nmessage_format = ' + FMT + '\nfilter_chain = only_uid:0;noop\noutput = stderr\n'
+# error logging on and every record overflowing its limit: both threads are inside the error handler's delivery at some point
+CFG_ERRLOG = '[snoopy]\nerror_logging = yes\nlog_message_max_length = 255\nmessage_format = ' + FMT + '|' + 'L' * 300 + '%{cmdline}\nfilter_chain = only_uid:0;noop\noutput = file:@W@/log\n'
+# a configuration file larger than one stdio buffer (8 KiB of comments between the settings): parsing spans several buffer refills
+CFG_BIGFILE = '[snoopy]\nmessage_format = ' + FMT + '\n' + ''.join('; padding line %04d %s\n' % (i, 'p' * 60) for i in range(70)) + 'filter_chain = only_uid:0;exclude_uid:7,8;noop\n' + ''.join('# more padding %04d %s\n' % (i, 'q' * 60) for i in range(70)) + 'output = file:@W@/log\n'
 CFG_DROP = '[snoopy]\nmessage_format = ' + FMT + '\nfilter_chain = only_uid:0;only_root;exclude_uid:0;noop\noutput = file:@W@/log\n'
 
 
@@ -80,6 +84,15 @@ def judge(x, n, k, drop):
     else:
         if text:
             bad.append('partial_last_record')
+    errlog = drop == 'errlog'
+    if errlog:
+        # every call raises the same errors (its record overflows the limit): the error records of all calls must be there - the same number
+        # for each call - next to one (cut) record per call
+        nerr = len([l for l in lines if b'Maximum destination string size exceeded' in l])
+        lines = [l for l in lines if b'Maximum destination string size exceeded' not in l]
+        if nerr == 0 or nerr % (n * k + 1) != 0:
+            bad.append('error_records_%d_not_a_multiple_of_%d_calls' % (nerr, n * k + 1))
+        drop = False
     exp = {}
     if not drop:
         for t in range(n):
@@ -90,7 +103,7 @@ def judge(x, n, k, drop):
         s = l.decode('latin-1')
         if s.startswith('/lone|LONE|'):
             lone += 1
-            if not re.match(r'^/lone\|LONE\|\d+\|1\|lg\|envvalue\|root(\|[^|]*)?$', s):
+            if not errlog and not re.match(r'^/lone\|LONE\|\d+\|1\|lg\|envvalue\|root(\|[^|]*)?$', s):
                 bad.append('lone_call_sees_other_thread_state')
             continue
         hit = [p for p in exp if s.startswith(p)]
@@ -100,7 +113,7 @@ def judge(x, n, k, drop):
         exp[hit[0]] += 1
         rest = s[len(hit[0]):]
         m = re.match(r'^(\d+)\|lg\|envvalue\|root(\|[^|]*)?$', rest)
-        if not m or not (1 <= int(m.group(1)) <= n):
+        if not errlog and (not m or not (1 <= int(m.group(1)) <= n)):
             bad.append('record_tail_wrong')
     if lone != (0 if drop else 1):
         bad.append('lone_record_count_%d' % lone)
@@ -193,6 +206,9 @@ def run(ck):
         ('io-stderr-gone-asan-2x1', vio, 'asan', False, (CFG_STDERR, {'VS_STD_GONE': '2'}), 2, 1, 1, True),
         ('io-stdout-gone-asan-2x1', vio, 'asan', False, (CFG_STDOUT, {'VS_STD_GONE': '1'}), 2, 1, 1, True),
         ('io-stdout-stdio-reader-asan-2x1', vio, 'asan', False, (CFG_STDOUT, {'VS_STDIO_READER': '1'}), 2, 1, 1, False),
+        ('tsan-errlog-overflow-2x1', vt, 'tsan', False, CFG_ERRLOG, 2, 1, 1, 'errlog'),
+        ('io-asan-errlog-overflow-2x1', vio, 'asan', False, CFG_ERRLOG, 2, 1, 1, 'errlog'),
+        ('fn-asan-bigfile-2x1', vf, 'asan', True, CFG_BIGFILE, 2, 1, 1, False),
         ('fn-asan-2x1', vf, 'asan', True, CFG_LOG, 2, 1, 1, False),
         ('fn-asan-drop-2x1', vf, 'asan', True, CFG_DROP, 2, 1, 1, True),
     ]
